@@ -16,23 +16,48 @@ import time
 from . import common
 from .common import parallel_map
 
-RULE = ("three streams: (A) selectVRO under subsets of {-t tags, -T tags, keep, exact, inexact, explicit version, -r, -z} "
+RULE = ("streams: (A) selectVRO under subsets of {-t tags, -T tags, keep, exact, inexact, explicit version, -r, -z} "
         "and six VRO dictionaries (the default one exhaustively), also through `eups vro`; (B) findProductFromVRO on "
         "databases of 1-3 stacks x 1-2 products x 7 versions x 2 flavors x 3 tags written as version/chain files, with "
         "requests in {none, explicit present/absent, >=, <, ==, ||, && expressions, version [expr]}, VROs from stream A "
-        "and hand-written ones, through the files, the cache (accepted and rebuilt) and noCache on a cached instance; "
+        "and hand-written ones (user tags spelled `mine` / `user:mine`, `global:t` / `:t`, the `setup` pseudo-tag with SETUP_<NAME> "
+        "naming a declared / undeclared / LOCAL: version, a flavor and a stack or none), LOCAL:<dir> versions of an existing and a "
+        "missing directory, through the files, the cache (accepted and rebuilt) and noCache on a cached instance; "
         "(C) the flavor loop through Eups.setup at depth 0 and 1; (D) one dependency named in a table file, with -t/--vro/-k on "
         "the line; (E) tables of 2-3 lines for different products, the first mostly with -k or -t, other versions of the "
-        "products already set up: each line's answer and the command's VRO afterwards.  A lookup is non-trivial when the database holds a "
+        "products already set up: each line's answer and the command's VRO afterwards; C and D under four configured flavor chains "
+        "(two in which a fallback's name sorts before the native one) and with --exact and user pre-tags; (F) `eups vro ARGS` against "
+        "the VRO `setup ARGS` resolves with; (G) Eups.findProduct and findTaggedProduct on generated tag files; (H) Eups.setEupsPath on "
+        "generated path texts.  A lookup is non-trivial when the database holds a "
         "declaration of the product for the flavor asked; distinct = distinct (database, request, VRO, mode) digests")
 TRUSTED = ["the driver instantiates the model's order with C10's model of version_cmp / version_match (Model/VersionCmp.lean, "
            "verified by C10); it is compared with Eups.version_cmp / version_match on the generator's names on every run",
            "which flavors a fresh process loads for a stack (accepted cache: native + fallback flavors; rebuilt: all) is an "
            "input of the model (interface with C07); the harness checks the prediction on every cached child",
-           "user tags, tag files (file:...), LOCAL: versions, the `setup` pseudo-tag and qualified tag names are outside the model"]
+           "user tags are laid out by the harness as chain files in <userdata>/_caches_<stack>/<product>/ and registered through "
+           "hooks.config.Eups.userTags; SETUP_<NAME> is written as `name version -f flavor [-Z stack]` (what `setup` records)",
+           "`file:` spellings and -t <file> in selectVRO (a VRO entry naming a tag file is modelled), tag groups other than global/user/pseudo, and the `setup` pseudo-tag "
+           "under --ignore-versions (findSetupProduct then runs the older findPreferredProduct) are outside the model"]
 ASSUMPTIONS = ["one Eups instance per command; selectVRO is called once per instance (twice by `eups vro`, modelled)",
                "at most one version per (tag, product, flavor) and stack; version and chain files are well formed",
                "no file in the working directory is named like a tag"]
+
+MIRRORS = [("python/eups/Eups.py", q) for q in (
+    "Eups.findProductFromVRO", "Eups._findTaggedProduct", "Eups.findTaggedProduct", "Eups._findProductsByExpr",
+    "Eups._selectPreferredProduct", "Eups._findLatestProduct", "Eups.selectVRO", "Eups.makeVroExact",
+    "Eups._kindlySetPreferredTags", "Eups.getPreferredTags", "Eups.setPreferredTags", "Eups.getVRO", "Eups.version_match",
+    "Eups.version_match_prim", "Eups.findProduct", "Eups.findProducts", "Eups.setup",
+    "Eups.isLegalRelativeVersion", "Eups.__init__", "Eups._processDefaultTags", "Eups.findSetupProduct",
+    "Eups.findSetupVersion", "Eups.setEupsPath", "Eups._loadUserTags", "Eups._userStackCache", "Eups.pushStack", "Eups.popStack")] + [
+    ("python/eups/hooks.py", "*"), ("python/eups/tags.py", "*"),
+    ("python/eups/table.py", "Action.processArgs"), ("python/eups/table.py", "Action.execute_setupRequired"),
+    ("python/eups/stack/ProductStack.py", "*"), ("python/eups/stack/ProductFamily.py", "*"),
+    ("python/eups/cmd.py", "VroCmd"), ("python/eups/cmd.py", "EupsCmd.createEups"), ("python/eups/setupcmd.py", "EupsSetup.run"),
+    ("python/eups/setupcmd.py", "append_current"), ("python/eups/db/Database.py", "_Database.getChainFile"),
+    ("python/eups/db/Database.py", "_Database.getTaggedVersion"), ("python/eups/utils.py", "userStackCacheFor"),
+    ("python/eups/Eups.py", "Eups._findTaggedProductFromFile"), ("python/eups/Eups.py", "Eups.findPreferredProduct"),
+    ("python/eups/Eups.py", "Eups._findPreferredProductByExpr"), ("python/eups/Product.py", "Product.createLocal"),
+    ("python/eups/utils.py", "Flavor")]
 
 NATIVE = "Linux"
 FLAVS = ["Linux", "generic"]              # the native flavor and its fallback: what the flavor loop visits and the cache is read for
@@ -40,6 +65,10 @@ OTHER_FLAVOR = "Darwin"                   # a flavor the process neither runs as
 VERS = ["1.0", "1.00", "1.2", "1.10", "2.0", "10.1", "2.0.1"]
 TAGS = ["current", "stable", "beta", "t"]          # `t`: a tag whose name is a substring of "path" (D33)
 GLOBAL_TAGS = ["current", "stable", "beta", "t"]
+USER_TAGS = ["mine"]                      # registered through hooks.config.Eups.userTags; chain records live in the user's
+UTAG = "user:mine"                        # data directory and are kept under the qualified name
+TAGFILE = "$R/tagfile.txt"                # a VRO entry naming an existing file is read as a tag file
+LOCAL_OK, LOCAL_NO = "LOCAL:$R/ldir", "LOCAL:$R/nodir"    # $R = the scratch root; `ldir` exists, `nodir` does not
 NAMES = ["p", "q"]
 PREV_PREFERRED = ["version", "versionExpr", "current", "stable", "latest"]
 DEFAULT_DICT = [["default", "type:exact commandLine version versionExpr current".split()]]
@@ -69,7 +98,14 @@ def vkey(v):
 
 # ---- databases -----------------------------------------------------------------------------------------
 
-def gen_world(rng, names=None):
+def other_flavor(chain):
+    return OTHER_FLAVOR if OTHER_FLAVOR not in chain else "SunOS"
+
+
+def gen_world(rng, names=None, chain=None):
+    """`chain` = the native flavor and its configured fallbacks, in order of preference (default: Linux, generic)"""
+    FLAVS, OTHER_FLAVOR = (chain or globals()["FLAVS"]), other_flavor(chain or globals()["FLAVS"])
+    NATIVE = FLAVS[0]
     n = rng.choice([1, 2, 2, 3])
     names = names or (["p"] if rng.random() < 0.6 else ["p", "q"])
     dens = rng.choice([0.15, 0.3, 0.3, 0.5])
@@ -92,12 +128,24 @@ def gen_world(rng, names=None):
                     elif r < 0.55 and any(d[0] == nm for d in decls):
                         # a chain entry for a version that is not declared here for this flavor
                         tags.append([t, nm, f, rng.choice(VERS)])
+            for f in FLAVS:
+                mine = [d[1] for d in decls if d[0] == nm and d[2] == f]
+                r = rng.random()
+                if r < 0.3 and mine:
+                    tags.append([UTAG, nm, f, rng.choice(mine)])
+                elif r < 0.36 and any(d[0] == nm for d in decls):
+                    tags.append([UTAG, nm, f, rng.choice(VERS)])
         stacks.append({"decls": sorted(decls), "tags": sorted(tags)})
     return {"stacks": stacks}
 
 
 def write_world(root, world):
-    stacks, _ = common.mkstacks(root, len(world["stacks"]), extra_tags=("beta", "t"), default_product=True)
+    stacks, uds = common.mkstacks(root, len(world["stacks"]), extra_tags=("beta", "t"), default_product=True)
+    for ud in uds.values():
+        with open(os.path.join(ud, "startup.py"), "a") as fd:
+            fd.write("hooks.config.Eups.userTags += [%s]\n" % ", ".join(repr(t) for t in USER_TAGS))
+    os.makedirs(os.path.join(root, "ldir"), exist_ok=True)
+    userdata = os.environ["EUPS_USERDATA"]
     old = time.time() - 5000
     for s, st in zip(stacks, world["stacks"]):
         byv = {}
@@ -120,13 +168,19 @@ def write_world(root, world):
             d = os.path.join(s, "ups_db", nm)
             if not os.path.isdir(d):
                 continue
+            if t.startswith("user:"):
+                # the user's tag area for this stack: <userdata>/_caches_<absolute stack path>/<product>/<tag>.chain
+                d = os.path.join(userdata, "_caches_") + os.path.join(s, nm)
+                os.makedirs(d, exist_ok=True)
+                t = t[len("user:"):]
             with open(os.path.join(d, t + ".chain"), "w") as fd:
                 fd.write("FILE = version\nPRODUCT = %s\nCHAIN = %s\n" % (nm, t))
                 for f, v in ents:
                     fd.write("#Group:\n   FLAVOR = %s\n   VERSION = %s\n   QUALIFIERS = \"\"\n#End:\n" % (f, v))
-        for dp, dn, fn in os.walk(s):
-            for x in [dp] + [os.path.join(dp, f) for f in fn]:
-                os.utime(x, (old, old))
+        for top in (s, os.path.join(userdata, "_caches_") + s):
+            for dp, dn, fn in os.walk(top):
+                for x in [dp] + [os.path.join(dp, f) for f in fn]:
+                    os.utime(x, (old, old))
     return stacks
 
 
@@ -169,7 +223,40 @@ def spec_first_stack(world, pred):
     return None
 
 
-def spec_entry(world, name, flavor, ent, version):
+def spec_tag_key(ent):
+    """The tag an entry names, however it is spelled: `t`, `global:t`, `:t`; a user tag `mine` or `user:mine`."""
+    if ent in GLOBAL_TAGS:
+        return ent
+    if ent in USER_TAGS:
+        return "user:" + ent
+    if ent.startswith("user:") and ent[5:] in USER_TAGS:
+        return ent
+    for pre in ("global:", ":"):
+        if ent.startswith(pre) and ent[len(pre):] in GLOBAL_TAGS:
+            return ent[len(pre):]
+    return None
+
+
+def spec_tagfile(world, name, flavor, tagfile):
+    """What a tag file designates (from the generator's description of its lines); None = the property is silent."""
+    want = None
+    for ln in tagfile["lines"]:
+        if ln[0] == "bad":
+            return None
+        if ln[0] == "pair" and ln[1] == name:
+            want = ln[2]
+            break
+    if want is None:
+        return set()
+    if _RELOP.search(want) or want.startswith("LOCAL:"):
+        return None
+    r = spec_first_stack(world, lambda st: True if [name, want, flavor] in st["decls"] else None)
+    return {(want, r[0])} if r else None      # declared nowhere: a loud failure (checked in stream G)
+
+
+def spec_entry(world, name, flavor, ent, version, setup=None, tagfile=None):
+    if ent == TAGFILE:
+        return spec_tagfile(world, name, flavor, tagfile) if tagfile else None
     """The set of (version, stack) answers the property allows entry `ent` to give; empty = the entry does not
     apply; None = the property does not speak about this entry."""
     def decl(st, v):
@@ -203,26 +290,36 @@ def spec_entry(world, name, flavor, ent, version):
             return set()
         top = max(vkey(v) for v in best)
         return {(v, i) for v, i in best.items() if vkey(v) == top}
-    if ent in GLOBAL_TAGS:
+    key = spec_tag_key(ent)
+    if key is not None:
         # "the version carrying that tag in the first stack on the path that has it"
         def carries(st):
             for t, nm, f, v in st["tags"]:
-                if t == ent and nm == name and f == flavor and decl(st, v):
+                if t == key and nm == name and f == flavor and decl(st, v):
                     return v
             return None
         r = spec_first_stack(world, carries)
         return {(r[1], r[0])} if r else set()
+    if ent == "setup":
+        # the version that is set up, when it is set up for the flavor asked and is a version of the stack it names
+        if not setup or setup["flavor"] != flavor:
+            return set()
+        if setup["version"].startswith("LOCAL:"):
+            return {(setup["version"], -1 if setup["stack"] is None else setup["stack"])}
+        if setup["stack"] is None or not decl(world["stacks"][setup["stack"]], setup["version"]):
+            return set()
+        return {(setup["version"], setup["stack"])}
     if ent in ("path", "keep", "commandLine") or ent.startswith("type:") or re.match(r"^warn:\d+$", ent):
         return set()          # directives: with nothing set up beforehand they select nothing
     return None
 
 
-def spec_walk(world, name, flavor, vro, version):
+def spec_walk(world, name, flavor, vro, version, setup=None, tagfile=None):
     """('hit', answers, entry) | ('none',) | ('unspecified',): read the VRO left to right; the first entry that
     applies designates the product; a request that names a version or expression does not fall through to tags
     once no version entry is left."""
     for i, ent in enumerate(vro):
-        ans = spec_entry(world, name, flavor, ent, version)
+        ans = spec_entry(world, name, flavor, ent, version, setup, tagfile)
         if ans is None:
             return ("unspecified",)
         if ans:
@@ -244,8 +341,8 @@ DICTS = {
     "dbz": [["default", [["default", "version current".split()], ["stack0", "current version versionExpr".split()]]]],
     "early-version": [["default", "version commandLine current versionExpr stable".split()]],
 }
-A_TAGS = [[], ["beta"], ["stable", "beta"], ["current"], ["bogus"], ["beta", "beta"], ["t"]]
-A_POST = [[], ["stable"], ["beta", "current"], ["beta"], ["t", "stable"]]
+A_TAGS = [[], ["beta"], ["stable", "beta"], ["current"], ["bogus"], ["beta", "beta"], ["t"], ["mine"], ["mine", "beta"], ["beta", "mine"]]
+A_POST = [[], ["stable"], ["beta", "current"], ["beta"], ["t", "stable"], ["mine"]]
 
 
 def dict_to_hooks(d):
@@ -343,8 +440,9 @@ def a_model_req(c):
     cli = bool(c.get("cli") and a_cli_ok(c))
     d = [["commandLine", "version beta warn current".split()]] if c["userVRO"] else DICTS[c["dict"]]
     return {"m": "c03", "op": "selectVROTwice" if cli else "selectVRO",
+            # in selectVRO a user tag is treated like a global one (recognised; moved by --exact)
             "cfg": {"vroDict": d, "userVRO": c["userVRO"], "keep": c["keep"] and not cli, "exact": c["exact"],
-                    "globalTags": GLOBAL_TAGS, "cmdTags": [], "prevPreferred": PREV_PREFERRED},
+                    "globalTags": GLOBAL_TAGS + USER_TAGS + ["root"], "cmdTags": [], "prevPreferred": PREV_PREFERRED},
             "args": {"tags": c["tags"], "productDir": bool(c["productDir"]) and c["productDir"] != "none",
                      "versionName": c["versionName"], "dbz": c["dbz"], "inexact": c["inexact"], "postTags": c["postTags"]}}
 
@@ -359,22 +457,56 @@ def a_canon_model(c, ans):
     return {"out": "ok", "vro": ans["vro"], "exact": ans["exact"]}
 
 
+A_KNOWN = GLOBAL_TAGS + USER_TAGS         # registered tags: the -t / -T clauses speak about these
+
+
+def dict_lists(d):
+    out = []
+    for _, v in d:
+        out += [vv for _, vv in v] if v and isinstance(v[0], list) else [v]
+    return out
+
+
+def shaped(lst):
+    """The shape under which the placement clauses are claimed for a dictionary list (ShapedBaseW, read off the list
+    itself): no version-type entry stands in front of the last `commandLine` / `type:*` entry."""
+    last = max([i for i, e in enumerate(lst) if e == "commandLine" or re.match(r"^type:.+", e)], default=-1)
+    return not any(e in VT for e in lst[:last + 1])
+
+
 def a_oracle(c, out):
-    """Positions of the -t / -T tags in the VRO the implementation produced (default dictionary only: that is what
-    the property quantifies over)."""
-    if c["dict"] != "default" or c["userVRO"] or out.get("out") != "ok":
+    """Positions of the -t / -T tags in the VRO the implementation produced: for the default dictionary (what the
+    property quantifies over) and for every other dictionary all of whose lists have the shape the general theorem asks."""
+    if c["userVRO"] or out.get("out") != "ok":
+        return
+    lists = dict_lists(DICTS[c["dict"]])
+    if c["dict"] != "default" and not all(shaped(l) for l in lists):
         return
     vro = out["vro"]
     vts = [i for i, e in enumerate(vro) if e in VT]
+    general = c["dict"] != "default"
+    if general:
+        # the clauses of C03_pretag_before_version_any_dict / C03_posttag_after_version_any_dict
+        for t in c["tags"]:
+            if t in A_KNOWN and (t not in vro or (vts and vro.index(t) > vts[0])):
+                yield ("pretag_before_version", "-t %s is not in front of the version entries of %s (dictionary %s)" % (t, vro, c["dict"]))
+        for t in c["postTags"]:
+            if t not in A_KNOWN or t in c["tags"] or not all(any(e in VT for e in l) for l in lists):
+                continue
+            if any(t in l and any(e in VT for e in l[l.index(t) + 1:]) for l in lists):
+                continue        # the dictionary itself lists the tag in front of a version entry
+            if t not in vro or (vts and vro.index(t) < vts[-1]):
+                yield ("posttag_after_version", "-T %s is not behind the version entries of %s (dictionary %s)" % (t, vro, c["dict"]))
+        return
     for t in c["tags"]:
-        if t not in GLOBAL_TAGS:
+        if t not in A_KNOWN:
             continue
         if t not in vro:
             yield ("pretag_before_version", "-t %s is not on the VRO %s" % (t, vro))
         elif vts and vro.index(t) > vts[0]:
             yield ("pretag_before_version", "-t %s stands behind a version entry in %s" % (t, vro))
     for t in c["postTags"]:
-        if t not in GLOBAL_TAGS or t in c["tags"]:
+        if t not in A_KNOWN or t in c["tags"]:
             continue
         if t not in vro:
             yield ("posttag_after_version", "-T %s is not on the VRO %s" % (t, vro))
@@ -386,7 +518,7 @@ def a_oracle(c, out):
     for tl, what in ((c["tags"], "-t"), ([t for t in c["postTags"] if t not in c["tags"]], "-T")):
         seen = []
         for t in tl:
-            if t in GLOBAL_TAGS and t not in seen:
+            if t in A_KNOWN and t not in seen:
                 seen.append(t)
         pos = [vro.index(t) for t in seen if t in vro]
         if pos != sorted(pos):
@@ -427,6 +559,48 @@ HAND_VROS = [["current", "version"], ["version", "current"], ["versionExpr", "st
              ["type:build", "current", "bogus", "stable"], ["current", "current", "version", "stable"],
              ["keep", "latest"], ["version", "versionExpr"], ["versionExpr"], ["stable", "version!", "beta"],
              ["t", "current"], ["commandLine", "t", "version", "versionExpr", "stable"], ["version", "t"]]
+# the native flavor and its configured fallbacks, most preferred first.  In the second and third the fallback's NAME sorts
+# before the native one's, so "alphabetical" and "configured" order differ
+CHAINS = [["Linux", "generic"], ["Linux64", "Linux", "generic"], ["DarwinX86", "Darwin"], ["Linux64", "Linux"]]
+C_TAGS = [[], [], ["beta"], ["stable"], ["stable", "beta"], ["t"], ["mine"], ["mine", "beta"], ["beta", "mine"]]
+
+
+def configure_chain(chain):
+    """In a child, before the Eups instance is made: the process runs as chain[0] and falls back along chain[1:]."""
+    hooks = common.eups_mod("hooks")
+    hooks.config.Eups.fallbackFlavors = {None: "generic", chain[0]: " ".join(chain[1:])}
+    os.environ["EUPS_FLAVOR"] = chain[0]
+
+
+def focus_pretag(rng, world, chain):
+    """The setting of "pre-tags override table versions", made certain: the first stack declares two versions of p for
+    the native flavor, a pre-tag (user tag `mine`, global tag `beta`, or both in either order) is assigned to one of them
+    and the version named (by the table, or on the command line) is the other.  Returns (tags, version)."""
+    native = chain[0]
+    st = world["stacks"][0]
+    v1, v2 = rng.sample(VERS, 2)
+    for v in (v1, v2):
+        if ["p", v, native] not in st["decls"]:
+            st["decls"].append(["p", v, native])
+    st["decls"].sort()
+    tags = rng.choice([["mine"], ["mine"], ["beta"], ["mine", "beta"], ["beta", "mine"]])
+    for t in tags:
+        key = UTAG if t == "mine" else t
+        for stk in world["stacks"]:
+            stk["tags"] = [r for r in stk["tags"] if not (r[0] == key and r[1] == "p" and r[2] == native)]
+    first = UTAG if tags[0] == "mine" else tags[0]
+    st["tags"].append([first, "p", native, v1])
+    if len(tags) > 1 and rng.random() < 0.5:
+        st["tags"].append([UTAG if tags[1] == "mine" else tags[1], "p", native, rng.choice([v1, v2])])
+    st["tags"].sort()
+    return tags, v2
+
+
+USER_VROS = [["mine", "current"], ["user:mine", "version"], ["version", "versionExpr", "mine", "latest"],
+             ["global:current", "mine"], [":stable", "user:mine", "current"], ["type:exact", "commandLine", "mine", "version",
+                                                                              "versionExpr", "current"]]
+SETUP_VROS = [["setup", "current"], ["keep", "setup", "version", "versionExpr", "latest"],
+              ["version", "versionExpr", "setup", "stable"], ["commandLine", "setup"], ["current", "setup"]]
 EXPRS = [">= 1.2", "< 2.0", "== 1.0", ">= 1.0 || == 10.1", "> 10.1", "<= 1.10", ">= 1.2 && < 2.0.1", "<1.2", ">=2.0",
          "== 1.00 || == 2.0", "< 1.0"]
 MODES = ["files", "cache-rebuilt", "cache-accepted", "mixed-accepted"]
@@ -453,6 +627,27 @@ def gen_lookup(rng, world, pool, names):
     else:
         version = rng.choice(["= 1.0", "", " =  2.0"])
     vro = list(rng.choice(pool if rng.random() < 0.55 else HAND_VROS))
+    r = rng.random()
+    setup = None
+    if r < 0.10:
+        vro = list(rng.choice(USER_VROS))
+    elif r < 0.20:
+        vro = list(rng.choice(SETUP_VROS))
+    if "setup" in vro or rng.random() < 0.03:
+        # what SETUP_<NAME> says: a version (declared somewhere or not, or a LOCAL: directory), a flavor, a stack or none
+        r = rng.random()
+        sv = rng.choice(have) if (r < 0.7 and have) else LOCAL_OK if r < 0.8 else rng.choice(VERS)
+        setup = {"version": sv, "flavor": flavor if rng.random() < 0.8 else rng.choice(FLAVS),
+                 "stack": rng.randrange(len(world["stacks"])) if rng.random() < 0.9 else None}
+    if rng.random() < 0.07:
+        version, vexpr = rng.choice([LOCAL_OK, LOCAL_OK, LOCAL_NO]), None
+    tagfile = None
+    if rng.random() < 0.06:
+        lines, text = gen_tagfile(rng, names)
+        lines = [("pair", l[1], "1.2") if (l[0] == "pair" and l[2] == G_HYPHEN) else l for l in lines]
+        tagfile = {"lines": [list(l) for l in lines], "text": text.replace(G_HYPHEN, "1.2")}
+        vro = list(rng.choice([[TAGFILE, "current"], ["type:exact", "commandLine", TAGFILE, "version", "versionExpr", "current"],
+                               ["version", "versionExpr", TAGFILE, "stable"], ["beta", TAGFILE]]))
     if rng.random() < 0.1:
         rng.shuffle(vro)
     depth = rng.choice([0, 0, 1, 2])
@@ -460,8 +655,14 @@ def gen_lookup(rng, world, pool, names):
     if rng.random() < 0.2:
         already = {"version": rng.choice(VERS), "flavor": rng.choice(FLAVS), "stack": rng.randrange(len(world["stacks"])),
                    "reason": rng.choice([None, "commandLine", "version", "current", "beta", "keep", "versionExpr"])}
-    return {"name": name, "version": version, "vexpr": vexpr, "depth": depth, "flavor": flavor,
-            "ignore": rng.random() < 0.04, "already": already, "vro": vro}
+    lk = {"name": name, "version": version, "vexpr": vexpr, "depth": depth, "flavor": flavor,
+          "ignore": rng.random() < 0.04, "already": already, "vro": vro}
+    if setup:
+        lk["setup"] = setup
+        lk["ignore"] = False        # --ignore-versions turns the lookup of the set-up product into findPreferredProduct: not modelled
+    if tagfile:
+        lk["tagfile"] = tagfile
+    return lk
 
 
 def b_child(stacks, mode, lookups):
@@ -482,18 +683,34 @@ def b_child(stacks, mode, lookups):
                 prod = Product(lk["name"], a["version"], a["flavor"], "none", "none", db=os.path.join(stacks[a["stack"]], "ups_db"))
                 E.alreadySetupProducts[lk["name"]] = (prod, [a["reason"], None] if a["reason"] else None)
             E.ignore_versions = lk["ignore"]
+            scratch = os.path.dirname(stacks[0])
+            envname = "SETUP_" + lk["name"].upper()
+            su = lk.get("setup")
+            if su:
+                os.environ[envname] = "%s %s -f %s%s" % (lk["name"], su["version"].replace("$R", scratch), su["flavor"],
+                                                       "" if su["stack"] is None else " -Z " + stacks[su["stack"]])
+            version = lk["version"].replace("$R", scratch) if lk["version"] else lk["version"]
+            tf = lk.get("tagfile")
+            tfpath = TAGFILE.replace("$R", scratch)
+            if tf:
+                with open(tfpath, "w") as fd:
+                    fd.write(tf["text"].replace("$R", scratch))
+            elif os.path.exists(tfpath):
+                os.unlink(tfpath)
             try:
-                p, why = E.findProductFromVRO(lk["name"], lk["version"], versionExpr=lk["vexpr"], flavor=lk["flavor"],
-                                              noCache=(mode.startswith("mixed")), recursionDepth=lk["depth"], vro=list(lk["vro"]))
+                p, why = E.findProductFromVRO(lk["name"], version, versionExpr=lk["vexpr"], flavor=lk["flavor"],
+                                              noCache=(mode.startswith("mixed")), recursionDepth=lk["depth"],
+                                              vro=[e.replace("$R", scratch) for e in lk["vro"]])
                 if p is None:
                     outs.append({"out": "ok", "hit": None})
                 else:
                     root = p.stackRoot()
-                    outs.append({"out": "ok", "hit": {"version": p.version, "flavor": p.flavor,
+                    outs.append({"out": "ok", "hit": {"version": p.version.replace(scratch, "$R"), "flavor": p.flavor or "",
                                                       "stack": stacks.index(root) if root in stacks else -1,
-                                                      "reason": why[0] if why else None}})
+                                                      "reason": why[0].replace(scratch, "$R") if why and why[0] else None}})
             except Exception as e:  # noqa
-                outs.append({"out": "err", "err": err_enum(e)})
+                outs.append({"out": "err", "err": api_err(e) if tf else err_enum(e)})
+            os.environ.pop(envname, None)
     return {"loaded": loaded, "outs": outs}
 
 
@@ -516,11 +733,24 @@ def b_impl_item(item):
 
 def b_model_req(world, mode, lk):
     m = {"files": "files", "cache-rebuilt": "cache", "cache-accepted": "cache", "mixed-accepted": "mixed"}[mode]
+    extra = {}
+    if lk.get("tagfile"):
+        # a VRO entry names a tag file: the walk of Model/VroApi.lean; the lookup the file ends in reads the instance's own
+        # preferred tags (the default VRO: the child called selectVRO()) only for expressions
+        extra = {"op": "findF", "files": [[TAGFILE, lk["tagfile"]["text"]]],
+                 "q": {"name": lk["name"], "flavor": lk["flavor"], "ignore": lk["ignore"], "preferred": list(DEFAULT_DICT[0][1]),
+                       "force": False}}
+    return dict(b_model_req0(world, m, mode, lk), **extra)
+
+
+def b_model_req0(world, m, mode, lk):
     return {"m": "c03", "op": "find", "db": world["stacks"], "mode": m, "loaded": FLAVS,
             "accepted": accepted_stacks(world, mode), "globalTags": GLOBAL_TAGS,
+            "userTags": USER_TAGS + ["root"], "dirs": ["$R/ldir"],
             "vro": lk["vro"],
             "req": {"name": lk["name"], "version": lk["version"], "vexpr": lk["vexpr"], "depth": lk["depth"],
-                    "flavor": lk["flavor"], "ignore": lk["ignore"], "already": lk["already"]}}
+                    "flavor": lk["flavor"], "ignore": lk["ignore"], "already": lk["already"],
+                    "setupEnv": lk.get("setup")}}
 
 
 def canon_model_hit(ans):
@@ -534,6 +764,14 @@ def canon_model_hit(ans):
     return {"out": "ok", "hit": {"version": h["version"], "flavor": h["flavor"], "stack": h["stack"], "reason": h["reason"]}}
 
 
+def canon_model_hit_b(ans, world):
+    """the model gives a product that belongs to no stack (a LOCAL: directory) the index len(path)"""
+    mo = canon_model_hit(ans)
+    if mo.get("hit") and mo["hit"]["stack"] >= len(world["stacks"]):
+        mo["hit"]["stack"] = -1
+    return mo
+
+
 def b_oracle(world, mode, lk, out):
     """The property on the implementation's answer.  Skipped where the property does not speak: products set up
     beforehand (keep / commandLine bookkeeping), `version [expr]` pairs, ignored versions, malformed requests."""
@@ -542,7 +780,7 @@ def b_oracle(world, mode, lk, out):
     v = lk["version"]
     if v is not None and (v == "" or not re.match(r"^[0-9.<>=|& ]+$", v) or re.match(r"^\s*=\s", v)):
         return
-    want = spec_walk(world, lk["name"], lk["flavor"], lk["vro"], v)
+    want = spec_walk(world, lk["name"], lk["flavor"], lk["vro"], v, lk.get("setup"), lk.get("tagfile"))
     if want[0] == "unspecified":
         return
     hit = out["hit"]
@@ -560,7 +798,7 @@ def b_oracle(world, mode, lk, out):
         yield ("first_match", d16, "entry %s designates %s, got nothing" % (ent, sorted(answers)))
         return
     clause = {"version": "version_entry", "version!": "version_entry", "versionExpr": "expr_entry_is_max",
-              "latest": "latest_is_max"}.get(ent, "tag_entry")
+              "latest": "latest_is_max", "setup": "setup_entry"}.get(ent, "tag_entry")
     if hit["flavor"] != lk["flavor"]:
         yield ("flavor_asked", d16, "asked %s, got %r" % (lk["flavor"], hit))
     if (hit["version"], hit["stack"]) not in answers:
@@ -597,7 +835,7 @@ def eval_b(ctx, items):
         if "child" in res:
             raise common.InfraError("lookup child failed: %r" % (res,))
         io_ = res["outs"][li]
-        mo = canon_model_hit(ans)
+        mo = canon_model_hit_b(ans, world)
         ctx.case(key=inp, nontrivial=world_has(world, lk["name"], lk["flavor"]),
                  sample={"input": {"mode": mode, "lookup": lk}, "impl": io_} if ctx.evaluations % 977 == 0 else None)
         ctx.hist("B:mode=%s" % mode)
@@ -607,6 +845,16 @@ def eval_b(ctx, items):
                                   "via:" + str(io_["hit"]["reason"])))
         if lk["already"]:
             ctx.hist("B:already-set-up")
+        if lk.get("setup"):
+            ctx.hist("B:SETUP_-in-environment")
+        if lk.get("tagfile"):
+            ctx.hist("B:vro-with-tag-file")
+        if lk["version"] and lk["version"].startswith("LOCAL:"):
+            ctx.hist("B:request=LOCAL:")
+        if any(spec_tag_key(e) == UTAG for e in lk["vro"]):
+            ctx.hist("B:vro-with-user-tag")
+        if any(":" in e and spec_tag_key(e) in GLOBAL_TAGS for e in lk["vro"]):
+            ctx.hist("B:vro-with-qualified-global-tag")
         if mo != io_:
             ctx.disagree("findProductFromVRO", inp, io_, mo)
         for clause, cls, detail in b_oracle(world, mode, lk, io_):
@@ -642,7 +890,8 @@ def gen_b_items(rng, nworlds, per_mode, pool):
 
 def gen_c(rng):
     names = ["p"]
-    world = gen_world(rng, names)
+    chain = rng.choice(CHAINS)
+    world = gen_world(rng, names, chain)
     have = sorted({d[1] for st in world["stacks"] for d in st["decls"]})
     r = rng.random()
     if r < 0.35:
@@ -656,11 +905,15 @@ def gen_c(rng):
     already = None
     depth = rng.choice([0, 0, 1])
     if depth and rng.random() < 0.35:
-        already = {"version": rng.choice(VERS), "flavor": rng.choice(FLAVS), "stack": 0,
+        already = {"version": rng.choice(VERS), "flavor": rng.choice(chain), "stack": 0,
                    "reason": rng.choice([None, "commandLine", "current", "beta"])}
-    return {"world": world, "name": "p", "version": version, "depth": depth, "keep": rng.random() < 0.3,
-            "tags": rng.choice([[], [], ["beta"], ["stable"], ["stable", "beta"], ["t"]]),
-            "postTags": rng.choice([[], [], ["stable"], ["beta"], ["t"]]), "already": already}
+    c = {"world": world, "name": "p", "version": version, "depth": depth, "keep": rng.random() < 0.3,
+         "tags": rng.choice(C_TAGS), "postTags": rng.choice([[], [], ["stable"], ["beta"], ["t"]]), "already": already,
+         "chain": chain, "exact": rng.random() < 0.35}
+    if rng.random() < 0.15:
+        c["tags"], c["version"] = focus_pretag(rng, world, chain)
+        c.update(depth=1, already=None, keep=False, exact=rng.random() < 0.6)
+    return c
 
 
 def c_child(stacks, c):
@@ -669,7 +922,8 @@ def c_child(stacks, c):
     sink = io.StringIO()
     with contextlib.redirect_stderr(sink), contextlib.redirect_stdout(sink):
         try:
-            E = common.new_eups(readCache=False, keep=c["keep"])
+            configure_chain(c.get("chain", FLAVS))
+            E = common.new_eups(readCache=False, keep=c["keep"], exact_version=bool(c.get("exact")), setupType=[])
             E.selectVRO(c["tags"] or None, None, c["version"], None, postTag=c["postTags"] or None)
             vro = list(E.getVRO())
             a = c["already"]
@@ -701,21 +955,22 @@ def c_impl_item(c):
 
 def c_sel_req(c):
     return {"m": "c03", "op": "selectVRO",
-            "cfg": {"vroDict": DEFAULT_DICT, "userVRO": False, "keep": c["keep"], "exact": False,
-                    "globalTags": GLOBAL_TAGS, "cmdTags": [], "prevPreferred": PREV_PREFERRED},
+            "cfg": {"vroDict": DEFAULT_DICT, "userVRO": False, "keep": c["keep"], "exact": bool(c.get("exact")),
+                    "globalTags": GLOBAL_TAGS + USER_TAGS + ["root"], "cmdTags": [], "prevPreferred": PREV_PREFERRED},
             "args": {"tags": c["tags"], "productDir": False, "versionName": bool(c["version"]), "dbz": None,
                      "inexact": False, "postTags": c["postTags"]}}
 
 
 def c_res_req(c, vro):
-    return {"m": "c03", "op": "resolve", "db": c["world"]["stacks"], "mode": "files", "loaded": FLAVS,
-            "accepted": [False] * len(c["world"]["stacks"]), "globalTags": GLOBAL_TAGS, "vro": vro,
-            "keep": c["keep"], "flavors": FLAVS,
-            "req": {"name": c["name"], "version": c["version"], "vexpr": None, "depth": c["depth"], "flavor": NATIVE,
+    chain = c.get("chain", FLAVS)
+    return {"m": "c03", "op": "resolve", "db": c["world"]["stacks"], "mode": "files", "loaded": chain,
+            "accepted": [False] * len(c["world"]["stacks"]), "globalTags": GLOBAL_TAGS, "userTags": USER_TAGS + ["root"], "vro": vro,
+            "keep": c["keep"], "flavors": chain,
+            "req": {"name": c["name"], "version": c["version"], "vexpr": None, "depth": c["depth"], "flavor": chain[0],
                     "ignore": False, "already": c["already"]}}
 
 
-def c_oracle(c, out):
+def c_oracle(c, out, stats=None):
     """The property at the level of `setup`: the VRO is read left to right for the native flavor first; on the
     command line (depth 0) an explicitly named version is the only acceptable answer, so an entry designating
     another version is passed over; below the top level a -t tag standing before `version` overrides the version a
@@ -741,14 +996,37 @@ def c_oracle(c, out):
             if ent in VT and not any(e in VT for e in vro[i + 1:]):
                 return ("none",)
         return ("none",)
-    per_flavor = {f: walk(f) for f in FLAVS}
+    chain = c.get("chain", FLAVS)      # "a native-flavor declaration is preferred over a fallback flavor": configured order
+    # "Pre-tags (-t) therefore override table versions": read off the command line, not off the VRO the code built —
+    # below the top level the first -t tag that designates a version for the native flavor is the answer
+    if c["tags"] and c["depth"] > 0 and not c.get("keep"):
+        for t in c["tags"]:
+            if t not in A_KNOWN:
+                break
+            ans = spec_entry(world, c["name"], chain[0], t, v)
+            if ans:
+                if hit is None or hit["flavor"] != chain[0] or (hit["version"], hit["stack"]) not in ans:
+                    yield ("pretag_overrides_table_version", "-t %s designates %s for %s whatever version is named (%s), set up %r" %
+                           (t, sorted(ans), chain[0], v, hit))
+                break
+    per_flavor = {f: walk(f) for f in chain}
     if any(w[0] == "unspecified" for w in per_flavor.values()):
         return
     want = None
-    for f in FLAVS:
+    for f in chain:
         if per_flavor[f][0] == "hit":
             want = (f, per_flavor[f])
             break
+    if stats is not None:
+        hits = [f for f in chain if per_flavor[f][0] == "hit"]
+        if len(hits) >= 2 and hits[0] == chain[0] and sorted(hits)[0] != chain[0]:
+            stats.append("native-and-a-fallback-sorting-first-both-resolve")
+        if want and want[1][2] in USER_TAGS and c.get("exact") and explicit and c["depth"] > 0:
+            stats.append("exact+user-pretag-over-table-version")
+        if want and want[1][2] in GLOBAL_TAGS and want[1][2] in c["tags"] and c.get("exact") and explicit and c["depth"] > 0:
+            stats.append("exact+global-pretag-over-table-version")
+        if want and want[1][2] in USER_TAGS and not c.get("exact") and explicit and c["depth"] > 0:
+            stats.append("user-pretag-over-table-version")
     if want is None:
         if hit is not None:
             yield ("first_match", "nothing is designated for any flavor, set up %r" % (hit,))
@@ -789,9 +1067,12 @@ def eval_c(ctx, cases):
                 mo["vro"] = s["vro"]
                 if mo["hit"]:
                     mo["hit"].pop("reason")
-        ctx.case(key=inp, nontrivial=world_has(c["world"], c["name"], NATIVE) or world_has(c["world"], c["name"], "generic"),
+        ctx.case(key=inp, nontrivial=any(world_has(c["world"], c["name"], f) for f in c.get("chain", FLAVS)),
                  sample={"input": {k: c[k] for k in c if k != "world"}, "impl": io_} if ctx.evaluations % 499 == 0 else None)
         ctx.hist("C:depth=%d" % c["depth"])
+        ctx.hist("C:chain=%s" % ">".join(c.get("chain", FLAVS)))
+        if c.get("exact"):
+            ctx.hist("C:--exact")
         ctx.hist("C:result=%s" % (io_.get("err") if io_["out"] != "ok" else "none" if io_["hit"] is None else io_["hit"]["flavor"]))
         if c["tags"]:
             ctx.hist("C:-t")
@@ -799,7 +1080,13 @@ def eval_c(ctx, cases):
             ctx.hist("C:-T")
         if mo != io_:
             ctx.disagree("setup_flavor_loop", inp, io_, mo)
-        for clause, detail in c_oracle(c, io_):
+        stats = []
+        for clause, detail in c_oracle(c, io_, stats):
+            ctx.fail(clause, inp, io_, mo, note=detail)
+        for k in stats:
+            ctx.hist("C:" + k)
+        for clause, detail in a_oracle({"dict": "default", "userVRO": False, "keep": c["keep"], "tags": c["tags"],
+                                        "postTags": c["postTags"]}, io_):
             ctx.fail(clause, inp, io_, mo, note=detail)
 
 
@@ -807,7 +1094,8 @@ def eval_c(ctx, cases):
 # ---- stream D: dependencies named in a table file (table.py glue + depth 1) ---------------------------------
 
 def gen_d(rng):
-    world = gen_world(rng, ["p"])
+    chain = rng.choice(CHAINS)
+    world = gen_world(rng, ["p"], chain)
     have = sorted({d[1] for st in world["stacks"] for d in st["decls"]})
     r = rng.random()
     vexpr = None
@@ -836,9 +1124,13 @@ def gen_d(rng):
     if decls and rng.random() < 0.3:
         i, d = rng.choice(decls)
         preset = {"version": d[1], "flavor": d[2], "stack": i}
-    return {"world": world, "version": version, "vexpr": vexpr, "optional": rng.random() < 0.4, "line": line,
-            "keep": rng.random() < 0.25, "tags": rng.choice([[], [], ["beta"], ["stable"], ["stable", "beta"], ["t"]]),
-            "postTags": rng.choice([[], [], ["stable"], ["beta"]]), "preset": preset}
+    c = {"world": world, "version": version, "vexpr": vexpr, "optional": rng.random() < 0.4, "line": line,
+         "keep": rng.random() < 0.25, "tags": rng.choice(C_TAGS),
+         "postTags": rng.choice([[], [], ["stable"], ["beta"]]), "preset": preset, "chain": chain, "exact": rng.random() < 0.4}
+    if rng.random() < 0.2:
+        c["tags"], c["version"] = focus_pretag(rng, world, chain)
+        c.update(vexpr=None, keep=False, preset=None, line={"tags": [], "vro": None, "keep": False}, exact=rng.random() < 0.6)
+    return c
 
 
 def d_table_line(c, name="p"):
@@ -863,7 +1155,8 @@ def d_child(stacks, c):
         if ps:
             os.environ["SETUP_P"] = "p %s -f %s -Z %s" % (ps["version"], ps["flavor"], stacks[ps["stack"]])
             os.environ["P_DIR"] = "none"
-        E = common.new_eups(readCache=False, keep=c["keep"])
+        configure_chain(c.get("chain", FLAVS))
+        E = common.new_eups(readCache=False, keep=c["keep"], exact_version=bool(c.get("exact")), setupType=[])
         E.selectVRO(c["tags"] or None, None, None, None, postTag=c["postTags"] or None)
         vro = list(E.getVRO())
         try:
@@ -893,10 +1186,10 @@ def d_impl_item(c):
         os.makedirs(d)
         with open(os.path.join(d, "1.0.version"), "w") as fd:
             fd.write("FILE = version\nPRODUCT = top\nVERSION = 1.0\nGroup:\n   FLAVOR = %s\n   QUALIFIERS = \"\"\n"
-                     "   PROD_DIR = %s\n   UPS_DIR = ups\n   TABLE_FILE = top.table\nEnd:\n" % (NATIVE, pdir))
+                     "   PROD_DIR = %s\n   UPS_DIR = ups\n   TABLE_FILE = top.table\nEnd:\n" % (c.get("chain", FLAVS)[0], pdir))
         with open(os.path.join(d, "current.chain"), "w") as fd:
             fd.write("FILE = version\nPRODUCT = top\nCHAIN = current\n#Group:\n   FLAVOR = %s\n   VERSION = 1.0\n"
-                     "   QUALIFIERS = \"\"\n#End:\n" % NATIVE)
+                     "   QUALIFIERS = \"\"\n#End:\n" % c.get("chain", FLAVS)[0])
         r = common.in_child(d_child, stacks, c)
         return r[1] if r[0] == "ok" else {"child": list(r[:4])}
     finally:
@@ -905,8 +1198,8 @@ def d_impl_item(c):
 
 def d_sel_req(c):
     return {"m": "c03", "op": "selectVRO",
-            "cfg": {"vroDict": DEFAULT_DICT, "userVRO": False, "keep": c["keep"], "exact": False,
-                    "globalTags": GLOBAL_TAGS, "cmdTags": [], "prevPreferred": PREV_PREFERRED},
+            "cfg": {"vroDict": DEFAULT_DICT, "userVRO": False, "keep": c["keep"], "exact": bool(c.get("exact")),
+                    "globalTags": GLOBAL_TAGS + USER_TAGS + ["root"], "cmdTags": [], "prevPreferred": PREV_PREFERRED},
             "args": {"tags": c["tags"], "productDir": False, "versionName": False, "dbz": None,
                      "inexact": False, "postTags": c["postTags"]}}
 
@@ -916,20 +1209,20 @@ def version_for_setup(c):
     return c["version"]
 
 
-def d_oracle(c, out):
+def d_oracle(c, out, stats=None):
     """-t on the command line overrides the version a table names; -T does not; a named version that is not
     declared fails.  Only for lines without options of their own and without --keep (the property's setting)."""
     if (out.get("out") != "ok" or c["vexpr"] or c["keep"] or c["line"]["tags"] or c["line"]["vro"] or c["line"]["keep"]
             or c.get("preset")):
         return
     cc = {"world": c["world"], "name": "p", "version": c["version"], "depth": 1, "tags": c["tags"],
-          "postTags": c["postTags"], "already": None}
+          "postTags": c["postTags"], "already": None, "chain": c.get("chain", FLAVS), "exact": c.get("exact")}
     sub = {"out": "ok", "vro": out["vro"], "hit": out["p"]}
     if out["top"] == "raised":
         if c["optional"]:
             yield ("optional_dependency_does_not_fail", "setup of top raised")
         sub["hit"] = None
-    for clause, detail in c_oracle(cc, sub):
+    for clause, detail in c_oracle(cc, sub, stats):
         yield (clause, detail)
     if out["top"] is True and not c["optional"] and out["p"] is None:
         yield ("required_dependency", "top was set up without its required dependency p")
@@ -943,10 +1236,11 @@ def eval_d(ctx, cases):
                                 "lineTags": c["line"]["tags"], "lineKeep": c["line"]["keep"]} for c, s in zip(cases, sels)])
     reqs = []
     for c, ln in zip(cases, lines):
-        reqs.append({"m": "c03", "op": "resolve", "db": c["world"]["stacks"], "mode": "files", "loaded": FLAVS,
-                     "accepted": [False] * len(c["world"]["stacks"]), "globalTags": GLOBAL_TAGS, "vro": ln["vro"],
-                     "keep": c["keep"], "flavors": FLAVS,
-                     "req": {"name": "p", "version": c["version"], "vexpr": c["vexpr"], "depth": 1, "flavor": NATIVE,
+        chain = c.get("chain", FLAVS)
+        reqs.append({"m": "c03", "op": "resolve", "db": c["world"]["stacks"], "mode": "files", "loaded": chain,
+                     "accepted": [False] * len(c["world"]["stacks"]), "globalTags": GLOBAL_TAGS, "userTags": USER_TAGS + ["root"],
+                     "vro": ln["vro"], "keep": c["keep"], "flavors": chain,
+                     "req": {"name": "p", "version": c["version"], "vexpr": c["vexpr"], "depth": 1, "flavor": chain[0],
                              "ignore": False,
                              "already": dict(c["preset"], reason=None) if c.get("preset") else None}})
     answers = ctx.lean.ask_many(reqs)
@@ -968,16 +1262,25 @@ def eval_d(ctx, cases):
             if ps and (hit is None or hit["version"] == ps["version"]):
                 hit = dict(ps)
             mo = {"out": "ok", "vro": s["vro"], "top": top, "p": hit if top is True else None}
-        ctx.case(key=inp, nontrivial=world_has(c["world"], "p", NATIVE) or world_has(c["world"], "p", "generic"),
+        ctx.case(key=inp, nontrivial=any(world_has(c["world"], "p", f) for f in c.get("chain", FLAVS)),
                  sample={"input": {k: c[k] for k in c if k != "world"}, "impl": io_} if ctx.evaluations % 499 == 0 else None)
         if c.get("preset"):
             ctx.hist("D:p-already-set-up")
+        ctx.hist("D:chain=%s" % ">".join(c.get("chain", FLAVS)))
+        if c.get("exact"):
+            ctx.hist("D:--exact")
         ctx.hist("D:line=%s" % ("-t" if c["line"]["tags"] else "--vro" if c["line"]["vro"] else "-k" if c["line"]["keep"] else "plain"))
         ctx.hist("D:result=%s" % (io_.get("err") if io_["out"] != "ok" else "raised" if io_["top"] == "raised" else
                                   "p-absent" if io_["p"] is None else io_["p"]["flavor"]))
         if mo != io_:
             ctx.disagree("table_dependency", inp, io_, mo)
-        for clause, detail in d_oracle(c, io_):
+        stats = []
+        for clause, detail in d_oracle(c, io_, stats):
+            ctx.fail(clause, inp, io_, mo, note=detail)
+        for k in stats:
+            ctx.hist("D:" + k)
+        for clause, detail in a_oracle({"dict": "default", "userVRO": False, "keep": c["keep"], "tags": c["tags"],
+                                        "postTags": c["postTags"]}, io_):
             ctx.fail(clause, inp, io_, mo, note=detail)
 
 
@@ -1188,6 +1491,481 @@ def eval_e(ctx, cases):
             ctx.fail(clause, inp, io_, mo, note=detail)
 
 
+# ---- stream F: the command line — `eups vro ARGS` against the VRO `setup ARGS` resolves with ------------------
+
+F_DEFAULTS = [None, None, None, {"pre": ["beta"], "post": []}, {"pre": [], "post": ["stable"]}, {"pre": ["beta"], "post": ["stable"]}]
+F_TVALS = ["beta", "stable", "current", "t", "mine", "bogus"]
+
+
+def gen_f(rng):
+    """Option tokens in command-line order: ["t", tag] = -t tag, ["T", tag] = -T tag, ["c"] = -c."""
+    toks = []
+    r = rng.random()
+    if r < 0.12:
+        toks = [["t", rng.choice(["None", ""])]]
+        if rng.random() < 0.4:
+            toks.append(rng.choice([["T", "stable"], ["c"]]))
+    else:
+        for _ in range(rng.choice([0, 1, 1, 2, 2, 3])):
+            k = rng.random()
+            toks.append(["t", rng.choice(F_TVALS)] if k < 0.45 else ["T", rng.choice(F_TVALS[:5])] if k < 0.8 else ["c"])
+    return {"toks": toks, "version": rng.random() < 0.5, "exact": rng.random() < 0.3,
+            "dbz": rng.choice([None, None, None, "stack0"]), "defaults": rng.choice(F_DEFAULTS),
+            "dict": rng.choice(["default"] * 5 + ["hooks-else", "tagkey", "dbz", "early-version", "warns", "noversion"])}
+
+
+def all_f():
+    """Thorough tier: every command line of at most three options over {-t beta, -t mine, -T stable, -c, -t None}, with and
+    without a version, -e, and three default-tag configurations, on the default dictionary."""
+    toks = [["t", "beta"], ["t", "mine"], ["T", "stable"], ["c"], ["t", "None"]]
+    seqs = [[]] + [[a] for a in toks] + [[a, b] for a in toks for b in toks] + [[a, b, c] for a in toks for b in toks for c in toks]
+    return [{"toks": sq, "version": v, "exact": e, "dbz": None, "defaults": d, "dict": "default"}
+            for sq in seqs for v in (False, True) for e in (False, True)
+            for d in (None, {"pre": ["beta"], "post": []}, {"pre": ["t"], "post": ["stable"]})]
+
+
+def f_args(c):
+    args = []
+    for t in c["toks"]:
+        args += {"t": ["-t", t[-1]], "T": ["-T", t[-1]], "c": ["-c"]}[t[0]]
+    if c["exact"]:
+        args += ["-e"]
+    if c["dbz"]:
+        args += ["-z", c["dbz"]]
+    return args + ["p"] + (["1.0"] if c["version"] else [])
+
+
+def f_impl_one(c, which):
+    """which = 'vro': what `eups vro ARGS` prints; 'setup': the VRO of the Eups instance `setup ARGS` hands to eups.setup."""
+    _quiet()
+    hooks = common.eups_mod("hooks")
+    hooks.config.Eups.VRO = dict_to_hooks(DICTS[c["dict"]])
+    if c["defaults"]:
+        hooks.config.Eups.defaultTags = {"pre": list(c["defaults"]["pre"]), "post": list(c["defaults"]["post"])}
+    out, sink = io.StringIO(), io.StringIO()
+    try:
+        if which == "vro":
+            cmdm = common.eups_mod("cmd")
+            with contextlib.redirect_stderr(sink), contextlib.redirect_stdout(out):
+                rc = cmdm.EupsCmd(args=["vro"] + f_args(c), toolname="eups").run()
+            return {"out": "ok", "vro": out.getvalue().split(), "rc": rc}
+        sc = common.eups_mod("setupcmd")
+        import eups
+        seen = {}
+
+        def at_setup(productName, versionName, tags, productDir, Eups, **kw):
+            seen["vro"] = list(Eups.getVRO())
+            return []
+        eups.setup = at_setup                # setupcmd.py calls eups.setup(...) once the instance and its VRO are ready
+        with contextlib.redirect_stderr(sink), contextlib.redirect_stdout(out):
+            rc = sc.EupsSetup(args=f_args(c), toolname="setup").run()
+        if "vro" not in seen:
+            return {"out": "err", "err": "setup-not-reached", "rc": rc}
+        return {"out": "ok", "vro": seen["vro"], "rc": rc}
+    except Exception as e:  # noqa
+        return {"out": "err", "err": err_enum(e)}
+
+
+def f_impl_chunk(cases):
+    root = common.scratch("c03f")
+    try:
+        write_world(root, {"stacks": [{"decls": [["p", "1.0", NATIVE]], "tags": []}, {"decls": [], "tags": []}]})
+        res = []
+        for c in cases:
+            pair = {}
+            for which in ("vro", "setup"):
+                r = common.in_child(f_impl_one, c, which)
+                pair[which] = r[1] if r[0] == "ok" else {"out": "child", "err": list(r[:3])}
+            res.append(pair)
+        return res
+    finally:
+        common.rmtree(root)
+
+
+def f_model_req(c, op):
+    d = c["defaults"] or {"pre": [], "post": []}
+    return {"m": "c03", "op": op, "toks": c["toks"], "version": c["version"], "exact": c["exact"], "dbz": c["dbz"],
+            "defaults": d,
+            "cfg": {"vroDict": DICTS[c["dict"]], "userVRO": False, "keep": False, "exact": False,
+                    "globalTags": GLOBAL_TAGS + USER_TAGS + ["root"], "cmdTags": [], "prevPreferred": PREV_PREFERRED}}
+
+
+def f_effective(c):
+    """The -t / -T tags in force after default-tag processing, read off the command line as the help texts describe it:
+    `-t None` / `-t ""` = no tags and no default tags; defaults when neither -t nor -T (nor -c) is given; -c = -T current
+    where it stands."""
+    tags = [t[1] for t in c["toks"] if t[0] == "t"]
+    post = [t[1] if t[0] == "T" else "current" for t in c["toks"] if t[0] in ("T", "c")]
+    if tags in (["None"], [""]):
+        return [], post
+    if not tags and not post and c["defaults"]:
+        return list(c["defaults"]["pre"]), list(c["defaults"]["post"])
+    return tags, post
+
+
+def eval_f(ctx, cases):
+    nw = 4
+    impl = sum(parallel_map(f_impl_chunk, [cases[i::nw] for i in range(nw)], workers=nw), [])
+    order = [c for i in range(nw) for c in cases[i::nw]]
+    answers = ctx.lean.ask_many([f_model_req(c, op) for c in order for op in ("vroCmd", "setupCmdVro")])
+    for k, (c, pair) in enumerate(zip(order, impl)):
+        key = {"stream": "F", "case": c}
+        ctx.case(key=key, nontrivial=bool(c["toks"] or c["defaults"]),
+                 sample={"input": key, "impl": pair} if ctx.evaluations % 211 == 0 else None)
+        ctx.hist("F:dict=%s" % c["dict"])
+        for t in c["toks"]:
+            ctx.hist("F:option=-%s%s" % (t[0], " None" if t[-1] in ("None", "") else ""))
+        if c["defaults"]:
+            ctx.hist("F:default-tags-configured")
+        for j, which in enumerate(("vro", "setup")):
+            io_ = pair[which]
+            if io_["out"] == "child":
+                raise common.InfraError("command child failed: %r" % (io_,))
+            ans = answers[2 * k + j]
+            mo = ({"out": "ok", "vro": ans["vro"], "rc": 0} if ans.get("out") == "ok" else
+                  {"out": "err", "err": ans.get("err", ans.get("bad-op"))})
+            if mo != io_:
+                ctx.disagree("eups_vro_command" if which == "vro" else "setup_command_vro", key, io_, mo)
+        a, b = pair["vro"], pair["setup"]
+        mo2 = {"vroCmd": answers[2 * k].get("vro"), "setupCmdVro": answers[2 * k + 1].get("vro")}
+        # oracle (ii): "Print information about the VRO to use if issuing the setup command with the same arguments"
+        if a["out"] == "ok" and b["out"] == "ok" and a["vro"] != b["vro"]:
+            ctx.fail("vro_cmd_reports_setup_vro", key, pair, mo2,
+                     note="`eups vro %s` prints %s, `setup` with the same arguments resolves with %s" %
+                          (" ".join(f_args(c)), a["vro"], b["vro"]))
+        if b["out"] == "ok":
+            tags, post = f_effective(c)
+            sub = {"dict": c["dict"], "userVRO": False, "keep": False, "tags": tags, "postTags": post}
+            for clause, detail in a_oracle(sub, b):
+                ctx.fail(clause, key, pair, mo2, note="setup: " + detail)
+            if c["dict"] == "default" and "type:exact" not in b["vro"] and all(t in A_KNOWN for t in tags + post):
+                # (a tag that is not registered — `bogus`, or `None` next to another -t — is refused, and the qualified
+                # entries go with it: _kindlySetPreferredTags; modelled, not a clause of the property)
+                ctx.fail("default_vro_entries_kept", key, pair, mo2, note="type:exact is missing from %s" % b["vro"])
+
+
+# ---- stream G: the older entry points — Eups.findProduct, findTaggedProduct with a tag file ---------------------
+
+G_PREFS = [["current", "stable", "latest"], ["stable", "beta"], ["latest"], ["mine", "current"], ["version", "versionExpr", "current", "latest"],
+           ["type:exact", "commandLine", "version", "versionExpr", "current"], ["beta", "warn:1", "current"], ["bogus", "current"],
+           ["keep", "t", "12", ":", "stable"], ["user:mine", ":stable"]]
+G_WS = [" ", "  ", "\t", " \t "]
+G_HYPHEN = "2.0-rc1"
+
+
+def gen_tagfile(rng, names):
+    """A tag file as a list of structured lines and its text.  A line is ('pair', product, version) written in one of the
+    accepted forms, ('comment',), ('blank',) or ('bad', text)."""
+    lines, text = [], []
+    for _ in range(rng.choice([1, 2, 3, 4, 6])):
+        r = rng.random()
+        if r < 0.12:
+            lines.append(("comment",))
+            text.append(rng.choice(["# a comment", "   # p 9.9", "|  # q 1.0"]))
+        elif r < 0.2:
+            lines.append(("blank",))
+            text.append(rng.choice(["", "   ", "| |"]))
+        elif r < 0.27:
+            t = rng.choice(["p", "justoneword", "setupRequired(p)", "setupRequired(p 1.0 extra)", "setupRequired(q -j 1.0 2.0)"])
+            lines.append(("bad", t))
+            text.append(t)
+        else:
+            nm = rng.choice(names + ["r"])
+            v = rng.choice(VERS + ["9.9", ">= 1.2", "LOCAL:$R/nodir", "LOCAL:$R/ldir", G_HYPHEN, G_HYPHEN]) if rng.random() < 0.9 else rng.choice(VERS)
+            if " " in v:
+                v = rng.choice(VERS)            # an expression cannot be written as one word of a plain line
+            w = lambda: rng.choice(G_WS)
+            form = rng.random()
+            if form < 0.4:
+                t = nm + w() + v + rng.choice(["", w() + "Linux", w() + "current  whatever"])
+            elif form < 0.55:        # as printed by `eups list -D -s`
+                t = rng.choice(["|", "| |", " | "]) + w() + nm + w() + v
+            else:
+                opts = rng.choice(["", "-j ", "-f  Linux ", "-j -k\t"]) if rng.random() < 0.6 else ""
+                expr = rng.choice(["", " [>= 1.0]", "  [== 2.0 || > 3]"])
+                t = "%ssetupRequired(%s%s%s%s%s)%s" % (rng.choice(["", "  "]), opts, nm, w(), v, expr, rng.choice(["", "  # trailing"]))
+                if opts.startswith("-f"):
+                    # `-f  Linux ` is not an option without argument: "strip options without arguments; we could do better"
+                    lines.append(("bad", t))
+                    text.append(t)
+                    continue
+            lines.append(("pair", nm, v))
+            text.append(t)
+    return lines, "\n".join(text) + rng.choice(["\n", ""])
+
+
+def gen_g(rng):
+    names = ["p", "q"]
+    world = gen_world(rng, names)
+    flavor = NATIVE if rng.random() < 0.7 else "generic"
+    c = {"world": world, "name": rng.choice(names), "flavor": flavor, "pref": rng.choice(G_PREFS),
+         "mode": rng.choice(["files", "files", "cache-rebuilt"]), "force": rng.random() < 0.15}
+    have = sorted({d[1] for st in world["stacks"] for d in st["decls"] if d[0] == c["name"]})
+    if rng.random() < 0.5:
+        c["kind"] = "file"
+        for st in world["stacks"]:
+            for nm in names:
+                if rng.random() < 0.5:          # a release candidate next to the release: a version name with a hyphen
+                    st["decls"] = sorted(st["decls"] + [[nm, G_HYPHEN, flavor]])
+        c["lines"], c["text"] = gen_tagfile(rng, names)
+    else:
+        c["kind"] = "findProduct"
+        r = rng.random()
+        c["version"] = None if r < 0.35 else rng.choice(have) if (r < 0.6 and have) else rng.choice(["9.9", ""]) if r < 0.7 else rng.choice(EXPRS)
+        c["ignore"] = rng.random() < 0.1
+    return c
+
+
+def api_err(e):
+    n, msg = type(e).__name__, str(e)
+    return ("file:suspicious" if "Suspicious line" in msg else "file:invalid" if "Invalid line" in msg else
+            "tagNotRecognized" if n == "TagNotRecognized" else "notFound" if n == "RuntimeError" and "Unable to find product" in msg
+            else "badExpr" if n == "EupsException" and "Bad expr" in msg else err_enum(e))
+
+
+def g_child(stacks, c):
+    _quiet()
+    sink = io.StringIO()
+    with contextlib.redirect_stderr(sink), contextlib.redirect_stdout(sink):
+        E = common.new_eups(readCache=(c["mode"] != "files"), force=c["force"])
+        E.selectVRO()
+        E.preferredTags = list(c["pref"])
+        E.ignore_versions = bool(c.get("ignore"))
+        scratch = os.path.dirname(stacks[0])
+        try:
+            if c["kind"] == "file":
+                path = os.path.join(scratch, "tagfile.txt")
+                with open(path, "w") as fd:
+                    fd.write(c["text"].replace("$R", scratch))
+                p = E.findTaggedProduct(c["name"], path, flavor=c["flavor"])
+            else:
+                p = E.findProduct(c["name"], c["version"], flavor=c["flavor"])
+        except Exception as e:  # noqa
+            n = type(e).__name__
+            msg = str(e)
+            kind = ("file:suspicious" if "Suspicious line" in msg else "file:invalid" if "Invalid line" in msg else
+                    "tagNotRecognized" if n == "TagNotRecognized" else "notFound" if n == "RuntimeError" and "Unable to find product" in msg
+                    else "badExpr" if n == "EupsException" and "Bad expr" in msg else "Other(%s)" % n)
+            return {"out": "err", "err": kind}
+        if p is None:
+            return {"out": "ok", "prod": None}
+        root = p.stackRoot()
+        return {"out": "ok", "prod": {"version": p.version.replace(scratch, "$R"), "flavor": p.flavor or "",
+                                      "stack": stacks.index(root) if root in stacks else -1}}
+
+
+def g_impl_item(c):
+    root = common.scratch("c03g")
+    try:
+        stacks = write_world(root, c["world"])
+        if c["mode"] != "files":
+            common.in_child(b_child, stacks, "cache-rebuilt", [])
+        r = common.in_child(g_child, stacks, c)
+        return dict(r[1], _root=root) if r[0] == "ok" else {"out": "child", "err": list(r[:4])}
+    finally:
+        common.rmtree(root)
+
+
+def g_model_req(c, root="$R"):
+    """`root`: the scratch directory the implementation ran in — the text of a tag file is compared as the code saw it"""
+    base = {"m": "c03", "db": c["world"]["stacks"], "mode": "files" if c["mode"] == "files" else "cache", "loaded": FLAVS,
+            "accepted": [False] * len(c["world"]["stacks"]), "globalTags": GLOBAL_TAGS, "userTags": USER_TAGS + ["root"],
+            "dirs": [root + "/ldir"],
+            "q": {"name": c["name"], "flavor": c["flavor"], "ignore": bool(c.get("ignore")), "preferred": c["pref"], "force": c["force"]}}
+    if c["kind"] == "file":
+        return dict(base, op="findTaggedFromFile", content=c["text"].replace("$R", root))
+    return dict(base, op="findProductApi", version=c["version"])
+
+
+def g_oracle(c, out):
+    """From the generator's description: a tag file designates, for a product, the version of the first line naming it, and
+    the lookup answers with that version from the first stack declaring it (or fails loudly); findProduct with an explicit
+    version answers from the first stack declaring it."""
+    world, name, flavor = c["world"], c["name"], c["flavor"]
+    if c["kind"] == "file":
+        want = None
+        for ln in c["lines"]:
+            if ln[0] == "bad":
+                return          # an ill-formed line: the property says nothing
+            if ln[0] == "pair" and ln[1] == name:
+                want = ln[2]
+                break
+        if want is None:
+            if out != {"out": "ok", "prod": None}:
+                yield ("tag_file_entry", "the file does not list %s, got %r" % (name, out))
+            return
+        if _RELOP.search(want) or want.startswith("LOCAL:"):
+            return
+        r = spec_first_stack(world, lambda st: True if [name, want, flavor] in st["decls"] else None)
+        if r is None:
+            if c["force"]:
+                if out != {"out": "ok", "prod": None}:
+                    yield ("tag_file_entry", "%s %s is declared nowhere (--force): expected nothing, got %r" % (name, want, out))
+            elif out.get("err") != "notFound":
+                yield ("tag_file_entry", "%s %s is declared nowhere: expected a loud failure, got %r" % (name, want, out))
+        elif out.get("prod") != {"version": want, "flavor": flavor, "stack": r[0]}:
+            yield ("tag_file_entry", "the file lists %s %s, first declared in stack %d; got %r" % (name, want, r[0], out))
+    elif c["version"] and not c.get("ignore") and not _RELOP.search(c["version"]):
+        r = spec_first_stack(world, lambda st: True if [name, c["version"], flavor] in st["decls"] else None)
+        want = {"version": c["version"], "flavor": flavor, "stack": r[0]} if r else None
+        if out != {"out": "ok", "prod": want}:
+            yield ("version_entry", "findProduct(%s, %s): expected %r, got %r" % (name, c["version"], want, out))
+    elif not c["version"] or c.get("ignore"):
+        # "the (most) preferred version": the first preferred tag that designates one
+        for ent in c["pref"]:
+            if ent == ":" or ent.isdigit() or "type:" in ent:
+                continue
+            if ent != "latest" and spec_tag_key(ent) is None and ent not in ("keep", "version", "versionExpr", "commandLine"):
+                return          # not a tag: the property says nothing
+            ans = spec_entry(world, name, flavor, ent, None)
+            if ans is None:
+                return
+            if ans:
+                got = out.get("prod")
+                if not got or (got["version"], got["stack"]) not in ans:
+                    yield ("first_match", "preferred tag %s designates %s, got %r" % (ent, sorted(ans), out))
+                return
+        if out != {"out": "ok", "prod": None}:
+            yield ("first_match", "no preferred tag designates a version, got %r" % (out,))
+
+
+def eval_g(ctx, cases):
+    impl = parallel_map(g_impl_item, cases, workers=4)
+    for io_ in impl:
+        if io_.get("out") == "child":
+            raise common.InfraError("entry-point child failed: %r" % (io_,))
+    roots = [io_.pop("_root") for io_ in impl]
+    answers = ctx.lean.ask_many([g_model_req(c, root) for c, root in zip(cases, roots)])
+    for c, io_, ans, root in zip(cases, impl, answers, roots):
+        key = {"stream": "G", "case": c}
+        if "bad-op" in ans:
+            mo = {"out": "bad-op", "err": ans["bad-op"]}
+        elif ans["out"] != "ok":
+            mo = {"out": "err", "err": ans["err"]}
+        else:
+            mo = {"out": "ok", "prod": ans["prod"]}
+            if mo["prod"]:
+                mo["prod"]["version"] = mo["prod"]["version"].replace(root, "$R")
+                if mo["prod"]["stack"] >= len(c["world"]["stacks"]):
+                    mo["prod"]["stack"] = -1
+        ctx.case(key=key, nontrivial=world_has(c["world"], c["name"], c["flavor"]),
+                 sample={"input": {k: v for k, v in c.items() if k != "world"}, "impl": io_} if ctx.evaluations % 307 == 0 else None)
+        ctx.hist("G:%s" % c["kind"])
+        ctx.hist("G:result=%s" % (io_.get("err") if io_["out"] != "ok" else "none" if io_["prod"] is None else "found"))
+        if mo != io_:
+            ctx.disagree("findTaggedProduct_file" if c["kind"] == "file" else "findProduct", key, io_, mo)
+        for clause, detail in g_oracle(c, io_):
+            ctx.fail(clause, key, io_, mo, note=detail)
+
+
+# ---- stream H: which stacks are searched, in which order — Eups.setEupsPath(-Z path, -z dbz) -------------------
+
+H_DIRS = ["stack0", "sub/stack1", "sub/deep/stack2", "other", "st.ck", "stock"]        # directories that exist under the scratch root
+H_DECOR = ["%s", "%s/", "%s//", "%s/.", "%s/sub/..", "%s/./", "%s/../%b"]
+
+
+def gen_h(rng):
+    """Pieces of a -Z / $EUPS_PATH text: ("dir", i, decoration) = H_DIRS[i] written in some equivalent way,
+    ("missing",) a directory that does not exist, ("file",) a plain file, ("empty",) an empty piece."""
+    pieces = []
+    for _ in range(rng.choice([1, 2, 3, 3, 4, 5])):
+        r = rng.random()
+        if r < 0.72:
+            pieces.append(["dir", rng.randrange(len(H_DIRS)), rng.choice(H_DECOR), rng.random() < 0.15])
+        else:
+            pieces.append([rng.choice(["missing", "file", "empty"])])
+    return {"pieces": pieces, "dbz": rng.choice([None] * 6 + ["stack0", "sub", "sub", "deep", "stack", "other", "nomatch", "stack1", "st.ck", "st.ck"])}
+
+
+def h_text(c, root):
+    out = []
+    for p in c["pieces"]:
+        if p[0] == "dir":
+            base = os.path.join(root, H_DIRS[p[1]])
+            t = p[2].replace("%b", os.path.basename(base)) % base
+            out.append(t.replace(root, root + "/", 1) if p[3] else t)      # p[3]: a doubled slash in the middle
+        else:
+            out.append({"missing": os.path.join(root, "nowhere"), "file": os.path.join(root, "afile"), "empty": ""}[p[0]])
+    return ":".join(out)
+
+
+def h_child(root, c):
+    _quiet()
+    E = common.eups_mod("Eups").Eups
+    text = h_text(c, root)
+    dirs = [p for p in text.split(":") if os.path.isdir(p)]
+    try:
+        res = E.setEupsPath(text, c["dbz"])
+        return {"out": "ok", "path": [p.replace(root, "$R") for p in res], "env": os.environ.get("EUPS_PATH", "").replace(root, "$R"),
+                "_text": text, "_dirs": dirs}
+    except Exception as e:  # noqa
+        return {"out": "err", "err": err_enum(e), "_text": text, "_dirs": dirs}
+
+
+def h_impl_chunk(cases):
+    root = common.scratch("c03h")
+    try:
+        for d in H_DIRS:
+            os.makedirs(os.path.join(root, d))
+        with open(os.path.join(root, "afile"), "w") as fd:
+            fd.write("x")
+        res = []
+        for c in cases:
+            r = common.in_child(h_child, root, c)
+            res.append(dict(r[1], _root=root) if r[0] == "ok" else {"out": "child", "err": list(r[:3])})
+        return res
+    finally:
+        common.rmtree(root)
+
+
+def h_oracle(c, out):
+    """Stacks are searched in the order the path lists them; a directory listed twice (however written) is searched
+    once; what is not a directory is ignored; -z keeps the entries that contain that directory."""
+    if out.get("out") != "ok":
+        return
+    want = []
+    for p in c["pieces"]:
+        if p[0] != "dir" or p[2] == "%s/sub/..":
+            continue            # `<dir>/sub/..` is not a directory: <dir>/sub does not exist
+        base = "$R/" + H_DIRS[p[1]]
+        comps = (p[2].replace("%b", "x") % base).split("/")
+        if c["dbz"] and c["dbz"] not in comps:
+            continue
+        if base not in want:
+            want.append(base)
+    if out["path"] != want:
+        yield ("path_order", "the path lists %s, searched %s" % (want, out["path"]))
+    if out["env"] != ":".join(out["path"]):
+        yield ("path_order", "EUPS_PATH is left as %r" % out["env"])
+
+
+def eval_h(ctx, cases):
+    nw = 2
+    impl = sum(parallel_map(h_impl_chunk, [cases[i::nw] for i in range(nw)], workers=nw), [])
+    order = [c for i in range(nw) for c in cases[i::nw]]
+    for io_ in impl:
+        if io_.get("out") == "child":
+            raise common.InfraError("setEupsPath child failed: %r" % (io_,))
+    answers = ctx.lean.ask_many([{"m": "c03", "op": "setEupsPath", "path": io_["_text"], "dbz": c["dbz"], "dirs": io_["_dirs"]}
+                                 for c, io_ in zip(order, impl)])
+    for c, io_, ans in zip(order, impl, answers):
+        root = io_.pop("_root")
+        io_.pop("_text"), io_.pop("_dirs")
+        key = {"stream": "H", "case": c}
+        mo = ({"out": "ok", "path": [p.replace(root, "$R") for p in ans["path"]]} if ans.get("out") == "ok" else
+              {"out": "err", "err": ans.get("err", ans.get("bad-op"))})
+        if mo["out"] == "ok":
+            mo["env"] = ":".join(mo["path"])
+        ctx.case(key=key, nontrivial=any(p[0] == "dir" for p in c["pieces"]),
+                 sample={"input": key, "impl": io_} if ctx.evaluations % 97 == 0 else None)
+        ctx.hist("H:dbz=%s" % ("none" if c["dbz"] is None else "given"))
+        ctx.hist("H:stacks-found=%d" % len(io_.get("path", [])))
+        if mo != io_:
+            ctx.disagree("setEupsPath", key, io_, mo)
+        for clause, detail in h_oracle(c, io_):
+            ctx.fail(clause, key, io_, mo, note=detail)
+
+
 # ---- the local order against the real one --------------------------------------------------------------
 
 def check_order(ctx):
@@ -1316,15 +2094,24 @@ def run_inputs(ctx, inputs):
     b = [c for c in inputs if c["stream"] == "B" and c.get("lookup")]
     if b:
         eval_b(ctx, [(c["world"], {c["mode"]: [c["lookup"]]}) for c in b])
-    cs = [{k: v for k, v in c.items() if k not in ("stream", "_corpus")} for c in inputs if c["stream"] == "C"]
+    cs = [{k: v for k, v in c.items() if k not in ("stream", "_corpus", "comment")} for c in inputs if c["stream"] == "C"]
     if cs:
         eval_c(ctx, cs)
-    ds = [{k: v for k, v in c.items() if k not in ("stream", "_corpus")} for c in inputs if c["stream"] == "D"]
+    ds = [{k: v for k, v in c.items() if k not in ("stream", "_corpus", "comment")} for c in inputs if c["stream"] == "D"]
     if ds:
         eval_d(ctx, ds)
     es = [{k: v for k, v in c.items() if k not in ("stream", "_corpus", "comment")} for c in inputs if c["stream"] == "E"]
     if es:
         eval_e(ctx, es)
+    fs = [c["case"] for c in inputs if c["stream"] == "F"]
+    if fs:
+        eval_f(ctx, fs)
+    gs = [c["case"] for c in inputs if c["stream"] == "G"]
+    if gs:
+        eval_g(ctx, gs)
+    hs = [c["case"] for c in inputs if c["stream"] == "H"]
+    if hs:
+        eval_h(ctx, hs)
 
 
 def exhaustive_b(ctx):
@@ -1359,51 +2146,115 @@ def exhaustive_b(ctx):
         eval_b(ctx, items[k:k + 48])
 
 
+QUICK = {"A": 300, "B": 100, "C": 500, "D": 400, "E": 400, "F": 180, "G": 260, "H": 200}        # B counts databases (x ~42 lookups)
+THOROUGH = {"A": 6000, "B": 4000, "C": 20000, "D": 15000, "E": 15000, "F": 6000, "G": 12000, "H": 8000}
+CHUNK = {"A": 600, "B": 120, "C": 600, "D": 600, "E": 700, "F": 300, "G": 400, "H": 400}
+
+
+def run_stream(ctx, k, n, pool):
+    """n more cases of stream k (B: n databases)."""
+    if k == "A":
+        eval_a(ctx, [gen_a(ctx.rng) for _ in range(n)], pool)
+    elif k == "B":
+        eval_b(ctx, gen_b_items(ctx.rng, n, 12, [v for v in pool if v][:60]))
+    elif k == "C":
+        eval_c(ctx, [gen_c(ctx.rng) for _ in range(n)])
+    elif k == "D":
+        eval_d(ctx, [gen_d(ctx.rng) for _ in range(n)])
+    elif k == "E":
+        eval_e(ctx, [gen_e(ctx.rng) for _ in range(n)])
+    elif k == "F":
+        eval_f(ctx, [gen_f(ctx.rng) for _ in range(n)])
+    elif k == "G":
+        eval_g(ctx, [gen_g(ctx.rng) for _ in range(n)])
+    elif k == "H":
+        eval_h(ctx, [gen_h(ctx.rng) for _ in range(n)])
+    ctx.hist("stream-cases:" + k, n)
+
+
+def check_floors(ctx, done):
+    """Every class of input the clauses rely on must have been seen in proportion (InfraError otherwise)."""
+    h = ctx.histogram
+    for k in QUICK:
+        if not done.get(k):
+            raise common.InfraError("the time budget ran out before stream %s produced a case" % k)
+    if h.get("E:later-plain-line-for-a-set-up-product", 0) < 0.08 * done["E"]:
+        raise common.InfraError("degenerate distribution: too few tables with an option line before a plain line for a set-up product")
+    if ctx.evaluations and ctx.distinct_nontrivial < ctx.evaluations * 0.3:
+        raise common.InfraError("degenerate distribution: %d non-trivial of %d" % (ctx.distinct_nontrivial, ctx.evaluations))
+    ncd = sum(v for k, v in h.items() if k.startswith("C:chain=") or k.startswith("D:chain="))
+    for k, least in (("native-and-a-fallback-sorting-first-both-resolve", 0.05), ("exact+user-pretag-over-table-version", 0.01),
+                     ("exact+global-pretag-over-table-version", 0.004), ("user-pretag-over-table-version", 0.005)):
+        seen = h.get("C:" + k, 0) + h.get("D:" + k, 0)
+        if ncd > 400 and seen < least * ncd:
+            raise common.InfraError("degenerate distribution: %s seen %d times in %d setup cases" % (k, seen, ncd))
+    nbl = sum(v for k, v in h.items() if k.startswith("B:flavor="))
+    if h.get("B:flavor=generic", 0) < 0.1 * nbl:
+        raise common.InfraError("degenerate distribution: fallback-flavor lookups under 10%")
+    for k, least in (("B:result=via:setup", 0.004), ("B:result=via:mine", 0.003), ("B:result=via:user:mine", 0.002),
+                     ("B:result=via:path from version", 0.002), ("B:vro-with-qualified-global-tag", 0.01)):
+        if nbl > 2000 and h.get(k, 0) < least * nbl:
+            raise common.InfraError("degenerate distribution: %s seen %d times in %d lookups" % (k, h.get(k, 0), nbl))
+    if done["F"] > 100 and h.get("F:option=-t None", 0) < 0.03 * done["F"]:
+        raise common.InfraError("degenerate distribution: too few command lines with -t None")
+    if done["G"] > 100 and (h.get("G:file", 0) < 0.3 * done["G"] or h.get("G:result=found", 0) < 0.15 * done["G"]):
+        raise common.InfraError("degenerate distribution: tag-file / findProduct cases")
+    if done["H"] > 100 and h.get("H:stacks-found=0", 0) > 0.6 * done["H"]:
+        raise common.InfraError("degenerate distribution: most path texts select no stack")
+
+
 def run(ctx):
+    """The ordinary quick portion of EVERY stream runs first and completely — in two passes of half the quick count per
+    stream, so that a slow machine starves no stream — and its distribution floors are checked.  Only then is an enlarged
+    budget (thorough tier, or the quick tier escalated because a mirrored function changed) spent, round-robin over the
+    streams, chunk by chunk, until the counts or the time limit are reached."""
     check_order(ctx)
     corpus = corpus_cases()
     ctx.hist("corpus", len(corpus))
     run_inputs(ctx, corpus)
     pool = [list(DEFAULT_DICT[0][1])]
-    # stream A: the default dictionary exhaustively, the others sampled
-    a_cases = all_default_a() + [gen_a(ctx.rng) for _ in range(ctx.n(500, 6000))]
-    eval_a(ctx, a_cases, pool)
-    pool = [v for v in pool if v][:60]
-    ctx.hist("A:distinct-vros", len(pool))
-    if ctx.tier == "thorough":
-        exhaustive_b(ctx)
-    nb = ctx.n(200, 4000)
-    done = 0
-    while done < nb and not ctx.out_of_time():
-        k = min(120, nb - done)
-        eval_b(ctx, gen_b_items(ctx.rng, k, 12, pool))
-        done += k
-    nc = ctx.n(800, 20000)
-    done = 0
-    while done < nc and not ctx.out_of_time():
-        k = min(600, nc - done)
-        eval_c(ctx, [gen_c(ctx.rng) for _ in range(k)])
-        done += k
-    nd = ctx.n(600, 15000)
-    done = 0
-    while done < nd and not ctx.out_of_time():
-        k = min(600, nd - done)
-        eval_d(ctx, [gen_d(ctx.rng) for _ in range(k)])
-        done += k
-    ne = ctx.n(700, 15000)
-    done = 0
-    while done < ne and not ctx.out_of_time():
-        k = min(700, ne - done)
-        eval_e(ctx, [gen_e(ctx.rng) for _ in range(k)])
-        done += k
-    if not ctx.out_of_time() and ctx.histogram.get("E:later-plain-line-for-a-set-up-product", 0) < 0.08 * ne:
-        raise common.InfraError("degenerate distribution: too few tables with an option line before a plain line for a set-up product")
+    eval_a(ctx, all_default_a(), pool)          # the default dictionary exhaustively
+    done = {k: 0 for k in QUICK}
+    for half in (0, 1):
+        for k in QUICK:
+            n = QUICK[k] // 2 if half == 0 else QUICK[k] - QUICK[k] // 2
+            if ctx.out_of_time():
+                break
+            run_stream(ctx, k, n, pool)
+            done[k] += n
+    ctx.hist("A:distinct-vros", len([v for v in pool if v][:60]))
+    check_floors(ctx, done)
+    big = ctx.n(0, 1) == 1                       # thorough tier, or escalated
+    if big:
+        if ctx.tier == "thorough":
+            # each exhaustive family gets a share of what is left, so that neither starves the other nor the streams
+            final = ctx.deadline
+            ctx.deadline = min(final, time.time() + 0.2 * max(0.0, final - time.time()))
+            fa = all_f()
+            ctx.hist("F:exhaustive-command-lines", len(fa))
+            for k in range(0, len(fa), 300):
+                if ctx.out_of_time():
+                    ctx.note("exhaustive command lines cut short by the time budget at %d of %d" % (k, len(fa)))
+                    break
+                eval_f(ctx, fa[k:k + 300])
+            ctx.deadline = min(final, time.time() + 0.45 * max(0.0, final - time.time()))
+            exhaustive_b(ctx)
+            ctx.deadline = final
+        left = {k: THOROUGH[k] - done[k] for k in QUICK}
+        while any(v > 0 for v in left.values()) and not ctx.out_of_time():
+            for k in QUICK:
+                if left[k] <= 0 or ctx.out_of_time():
+                    continue
+                n = min(CHUNK[k], left[k])
+                run_stream(ctx, k, n, pool)
+                left[k] -= n
+                done[k] += n
     shrink_reports(ctx)
-    if ctx.evaluations and ctx.distinct_nontrivial < ctx.evaluations * 0.3:
-        raise common.InfraError("degenerate distribution: %d non-trivial of %d" % (ctx.distinct_nontrivial, ctx.evaluations))
-    h = ctx.histogram
-    if h.get("B:flavor=generic", 0) < 0.1 * sum(v for k, v in h.items() if k.startswith("B:flavor=")):
-        raise common.InfraError("degenerate distribution: fallback-flavor lookups under 10%")
+
+
+def search(ctx):
+    """After a correspondence break with no failing input: the same streams again (fresh seed, enlarged budget)."""
+    run(ctx)
 
 
 def replay(ctx, rp):
